@@ -179,7 +179,8 @@ def gen_update(rng, npr, tier, force_class=None):
     sparse = False
     if cls == "sparse_special":
         # CSR input with a metric scikit-learn cannot evaluate on sparse data (fit / transform take umap's own fallback paths)
-        metric = rng.choice(["chebyshev", "canberra", "braycurtis"]); sparse = True
+        gen_update.sps = getattr(gen_update, "sps", -1) + 1
+        metric = ["minkowski", "chebyshev", "canberra", "braycurtis"][gen_update.sps % 4]; sparse = True
         X = np.abs(npr.normal(size=(n, d))) * (npr.random(size=(n, d)) < 0.7) + 0.0
         X[X.sum(axis=1) == 0, 0] = 1.0
     unseeded = False
@@ -192,8 +193,10 @@ def gen_update(rng, npr, tier, force_class=None):
     p = dict(n_neighbors=k, metric=metric, n_epochs=11, random_state=rng.randrange(1000), set_op_mix_ratio=rng.choice([1.0, 1.0, 0.5]))
     if unseeded:
         p["random_state"] = None; p["n_jobs"] = 2
+    if metric == "minkowski":       # a keyword argument of the metric must reach every distance computation (fit, update, transform)
+        p["metric_kwds"] = {"p": rng.choice([3.0, 1.5])}
     if cls == "disc":
-        Dm = pairwise_distances(X, metric=UD.named_distances[metric])
+        Dm = pairwise_distances(X, metric=UD.named_distances[metric], **p.get("metric_kwds", {}))
         kth = np.sort(Dm, axis=1)[:, min(k, n - 1) - 1]
         p["disconnection_distance"] = float(np.quantile(kth, rng.uniform(0.6, 0.95)))
     return dict(X=X, sizes=sizes, params=p, cls=cls, sparse=sparse)
@@ -248,7 +251,7 @@ def classify(case):
     if any(c <= p["n_neighbors"] for c in np.cumsum(sizes)[:-1]):
         return "n1_le_n_neighbors"
     disc = disc_of(p)
-    Dm = pairwise_distances(X, metric=UD.named_distances[p["metric"]])
+    Dm = pairwise_distances(X, metric=UD.named_distances[p["metric"]], **p.get("metric_kwds", {}))
     if np.any(Dm >= disc):
         return "disconnection_cut_active"
     return "other"
@@ -338,7 +341,7 @@ def coo_term(M):
 
 def graph_term(case, ob, flags, P):
     X, sizes, p = case["X"], case["sizes"], case["params"]
-    D = pairwise_distances(X, metric=UD.named_distances[p["metric"]]).astype(np.float32)
+    D = pairwise_distances(X, metric=UD.named_distances[p["metric"]], **p.get("metric_kwds", {})).astype(np.float32)
     disc = disc_of(p)
     dterm = "None" if not np.isfinite(disc) else "(Some %s)" % fl(disc)
     G = sp.csr_matrix(ob["model"].graph_); G.sum_duplicates()
@@ -360,7 +363,7 @@ def few_threads():
 
 
 def run(ctx):
-    gen_update.tiny = -1
+    gen_update.tiny = -1; gen_update.sps = -1
     few_threads()
     ctx.check_proofs(["prop/P_C11.v"])
     # translation tie: init_update regenerated from the current source (py2coq); link theorem (coq/link/L_update.v): for every
